@@ -462,6 +462,99 @@ def with_minimal(prop, record, case, check, limit=2):
     return record
 
 
+# ---------------------------------------------------------------------------- replayable histories
+def ops_to_json(ops):
+    out = []
+    for op in ops:
+        k = op[0]
+        if k == 'seg':
+            out.append(['seg', bytes(op[1]).hex()])
+        elif k == 'user':
+            out.append(['user', bytes(op[1].encode()).hex()])
+        elif k == 'usermsg':
+            out.append(['usermsg', [bytes(x.encode()).hex() for x in op[1]]])
+        elif k == 'tick':
+            out.append(['tick', op[1]])
+        else:
+            out.append([k])
+    return out
+
+
+def ops_from_json(js):
+    from pynetdicom2 import dulprovider
+
+    def pdu_of(hexs):
+        raw = bytes.fromhex(hexs)
+        return dulprovider.PDU_TYPES[raw[0]][0].decode(raw)
+    out = []
+    for op in js:
+        k = op[0]
+        if k == 'seg':
+            out.append(('seg', bytes.fromhex(op[1])))
+        elif k == 'user':
+            out.append(('user', pdu_of(op[1])))
+        elif k == 'usermsg':
+            out.append(('usermsg', [pdu_of(x) for x in op[1]]))
+        elif k == 'tick':
+            out.append(('tick', op[1]))
+        else:
+            out.append((k,))
+    return out
+
+
+def replayable(record, case, ref=None, oracle=None):
+    """Adds the history in a form `bin/check --replay` can run again (ref: (acceptor, ops, max_len) of the
+    reference delivery a C03 case is compared with)."""
+    try:
+        out = dict(record, replay_case=dict(acceptor=case['acceptor'], max_len=case.get('max_len', 65536),
+                                            ops=ops_to_json(case['ops'])))
+        if ref is not None:
+            out['replay_ref'] = dict(acceptor=ref[0], ops=ops_to_json(ref[1]), max_len=ref[2])
+        if oracle is not None:
+            out['replay_oracle'] = oracle
+        return out
+    except Exception as e:  # noqa
+        return dict(record, replay_case=None, replay_case_error=repr(e))
+
+
+def replay_case(prop, rec, checks):
+    """Runs the recorded history (the shrunk one too, if any) on the CURRENT tree and evaluates the obligations."""
+    rc = rec.get('replay_case')
+    print('property:', rec.get('property'), ' kind:', rec.get('kind'), ' label:', rec.get('label') or rec.get('history'))
+    if not rc:
+        print('this record carries no replayable history (recorded result follows)')
+        print(rec.get('result'))
+        return 0
+    env = c_env(message_table())
+    status = 0
+    variants = [('recorded history', ops_from_json(rc['ops']))]
+    for title, ops in variants:
+        r = run(ops, rc['acceptor'], rc['max_len'])
+        o = obs_term(r)
+        oref = o
+        if rec.get('replay_ref'):
+            rr = rec['replay_ref']
+            oref = obs_term(run(ops_from_json(rr['ops']), rr['acceptor'], rr['max_len']))
+        term = '(mkpc %s %s %d %s %s %s)' % (env, cbool(not rc['acceptor']), rc['max_len'],
+                                             clist([c_op(op) for op in ops]), o, oref)
+        runner = common.CoqRun(prop + '-replay')
+        failing, broken, _a, _b = common.run_sharded(runner, 'Replay', IMPORTS, 'pcase', [term], checks, size=1)
+        runner.cleanup()
+        print('%s (%d operations): %s' % (title, len(ops), short_ops(ops)))
+        print('  implementation now:', summary(r))
+        for chk in checks:
+            bad = bool(failing[chk[0]])
+            print('  obligation %-12s %s' % (chk[1], 'FAILS' if bad else 'holds'))
+            if bad and not (len(chk) > 2 and chk[2] == 'stat'):
+                status = 1
+        if broken:
+            print('  case file did not compile:', broken[0][1][-600:])
+            status = 1
+    if rec.get('minimal_history'):
+        print('shrunk history recorded with the violation:', rec['minimal_history'])
+    return status
+
+
 def short_ops(ops):
     out = []
     for op in ops:
